@@ -319,6 +319,7 @@ fn fold_stats(out: &mut RunOut, st: &CoreStats, tag: &str) {
     out.count("regions_with_ge2_tasks", st.regions_ge2);
     out.count("non_identity_orders", st.non_identity_orders);
     out.count("pool_preemptions", st.preemptions);
+    out.count("sync_points_atomic_or_lock", st.sync_points);
     if st.preemptions > 0 {
         out.probe("pool_run_with_preemption");
     }
